@@ -206,3 +206,17 @@ Proof.
   destruct d; [cbn in Hn; lia|]. rewrite pow2_S in Hn.
   assert (popcount m <= N.of_nat d) by (apply pc_le_bits; lia). lia.
 Qed.
+
+(* ---- momentum refresh: every leaf gets its own sub-key ---- *)
+Lemma leaf_keys_NoDup n : NoDup (leaf_keys n).
+Proof.
+  unfold leaf_keys. apply FinFun.Injective_map_NoDup; [|apply seq_NoDup].
+  intros a b H. apply Nat2Z.inj. exact H.
+Qed.
+Lemma leaf_keys_length n : length (leaf_keys n) = n.
+Proof. unfold leaf_keys. rewrite map_length, seq_length. reflexivity. Qed.
+Lemma leaf_keys_shared_dup n : (2 <= n)%nat -> ~ NoDup (leaf_keys_shared n).
+Proof.
+  intros H ND. destruct n as [|[|n]]; try lia. cbn in ND.
+  inversion ND as [|? ? Hin _]; subst. apply Hin. left. reflexivity.
+Qed.
